@@ -5,17 +5,6 @@ pub open spec fn list_item(server: Seq<char>, k: ConnState, s: VolatileState, cn
     fed(server, Reply::RplList322 { client: str_of(client_name_spec(k.user_state)), channel: str_of(cname), client_count: ch.users@.len() as usize,
         topic: str_of(if ch.topic is Some { ch.topic->0.topic@ } else { Seq::<char>::empty() }) })
 }
-// the named channels that exist and are not secret, in the order named
-pub open spec fn list_named(s: VolatileState, chans: Seq<&str>, n: int) -> Seq<Seq<char>>
-    decreases n
-{
-    if n <= 0 { Seq::empty() } else {
-        let p = list_named(s, chans, n - 1);
-        if listable(s, sk(chans[n - 1])) { p.push(chans[n - 1]@) } else { p }
-    }
-}
-// v is the name of one of the first `upto` channels of the walk
-pub open spec fn walked(sq: Seq<(&String, &Channel)>, upto: int, v: Seq<char>) -> bool { exists|j: int| 0 <= j < upto && (*(#[trigger] sq[j]).0)@ == v }
 pub open spec fn list_lines(server: Seq<char>, k: ConnState, s: VolatileState, names: Seq<Seq<char>>) -> Seq<FedItem> {
     names.map_values(|c: Seq<char>| list_item(server, k, s, c))
 }
@@ -24,10 +13,12 @@ pub open spec fn list_post(server: Seq<char>, k: ConnState, s: VolatileState, ch
         #![trigger list_lines(server, k, s, names)]
         sl1 == (sl0.push(fed(server, Reply::RplListStart321 { client: str_of(client_name_spec(k.user_state)) }))
                 + list_lines(server, k, s, names)).push(fed(server, Reply::RplListEnd323 { client: str_of(client_name_spec(k.user_state)) }))
-        // every line is about an existing channel that is not secret
-        && (forall|i: int| 0 <= i < names.len() ==> listable(s, string_of(#[trigger] names[i])))
-        && (if chans.len() > 0 { names == list_named(s, chans, chans.len() as int) }
-            else { names.no_duplicates() && forall|c: String| listable(s, c) <==> names.contains(c@) })
+        // every line is about an existing channel the asker may know of (not secret, or the asker is on it) ...
+        && (forall|i: int| 0 <= i < names.len() ==> s.channels@.contains_key(string_of(#[trigger] names[i])) && chan_visible_to(s.channels@[string_of(names[i])], my_nick(k)))
+        // ... that was asked for, if any were named
+        && (chans.len() > 0 ==> forall|i: int| 0 <= i < names.len() ==> listed_ch(chans, string_of(#[trigger] names[i])))
+        // and every public channel (asked for) is shown
+        && (forall|c: String| listable(s, c) && (chans.len() == 0 || listed_ch(chans, c)) ==> names.contains(#[trigger] c@))
 }
 
 impl MainState {
@@ -53,12 +44,12 @@ impl MainState {
         proof { assert(list_lines(server_name, k0, s0, names) =~= Seq::<FedItem>::empty()); }
 //@loop ~for chname in channels\.iter\(\) iter=it1
                     invariant
-                        *state == s0, state_wf(s0), conn_same_but_stream(*conn_state, k0), k0 == *old(conn_state), cs == channels@, server_name == self.config.name@,
+                        *state == s0, state_wf(s0), conn_ok(k0, s0), conn_same_but_stream(*conn_state, k0), k0 == *old(conn_state), cs == channels@, server_name == self.config.name@,
                         client@ == client_name_spec(k0.user_state),
                         it1.seq().len() == cs.len(),
                         forall|k: int| 0 <= k < it1.seq().len() ==> it1.seq()[k] == &cs[k],
-                        names == list_named(s0, cs, it1.index@ as int), // @prop C12
-                        forall|i: int| 0 <= i < names.len() ==> listable(s0, string_of(#[trigger] names[i])), // @prop C12
+                        forall|i: int| 0 <= i < names.len() ==> s0.channels@.contains_key(string_of(#[trigger] names[i])) && chan_visible_to(s0.channels@[string_of(names[i])], my_nick(k0)) && listed_ch(cs, string_of(names[i])), // @prop C12
+                        forall|j: int| 0 <= j < it1.index@ && listable(s0, sk(#[trigger] cs[j])) ==> names.contains(cs[j]@), // @prop C12
                         conn_state.stream.log() == sl0.push(start) + list_lines(server_name, k0, s0, names), // @prop C12,C09
 //@after ~for chname in channels\.iter\(\)
                     broadcast use group_hash_axioms, bridge, string_eq;
@@ -67,35 +58,36 @@ impl MainState {
                     proof {
                         assert(chname == &cs[k]);
                         assert forall|x: String| (#[trigger] x@) == cs[k]@ implies x == sk(cs[k]) by { assert(string_of(x@) == x); }
-                        assert(list_named(s0, cs, k + 1) == (if listable(s0, sk(cs[k])) { list_named(s0, cs, k).push(cs[k]@) } else { list_named(s0, cs, k) })) by { reveal_with_fuel(list_named, 2); }
                     }
 //@endloop ~for chname in channels\.iter\(\)
                     proof {
-                        if listable(s0, sk(cs[k])) {
+                        // whatever the guard was: a line was appended or not, and it is the line of this channel name
+                        assert(conn_state.stream.log() == log_a || conn_state.stream.log() == log_a.push(list_item(server_name, k0, s0, cs[k]@))); // @prop C12,C09
+                        if conn_state.stream.log() != log_a {
                             let names0 = names;
                             names = names0.push(cs[k]@);
                             assert(string_of(cs[k]@) == sk(cs[k]));
-                            assert(conn_state.stream.log() == log_a.push(list_item(server_name, k0, s0, cs[k]@))); // @prop C12,C09
+                            assert(s0.channels@.contains_key(sk(cs[k])) && chan_visible_to(s0.channels@[sk(cs[k])], my_nick(k0))); // @prop C12
                             assert(list_lines(server_name, k0, s0, names) =~= list_lines(server_name, k0, s0, names0).push(list_item(server_name, k0, s0, cs[k]@)));
+                            assert(names[names0.len() as int] == cs[k]@);
+                            assert forall|j: int| 0 <= j < k + 1 && listable(s0, sk(#[trigger] cs[j])) implies names.contains(cs[j]@) by {
+                                if j < k { let t = choose|t: int| 0 <= t < names0.len() && names0[t] == cs[j]@; assert(names[t] == cs[j]@); }
+                            }
                         } else {
-                            assert(conn_state.stream.log() == log_a); // @prop C12
+                            assert(!listable(s0, sk(cs[k]))); // @prop C12
                         }
                     }
 //@loop ~for \(chname, ch\) in state\.channels\.iter\(\) iter=it2
                     invariant
-                        *state == s0, state_wf(s0), conn_same_but_stream(*conn_state, k0), k0 == *old(conn_state), cs == channels@, cs.len() == 0, server_name == self.config.name@,
+                        *state == s0, state_wf(s0), conn_ok(k0, s0), conn_same_but_stream(*conn_state, k0), k0 == *old(conn_state), cs == channels@, cs.len() == 0, server_name == self.config.name@,
                         client@ == client_name_spec(k0.user_state),
                         forall|i: int| 0 <= i < it2.seq().len() ==> s0.channels@.contains_key(*(#[trigger] it2.seq()[i]).0) && s0.channels@[*it2.seq()[i].0] == *it2.seq()[i].1,
-                        it2.seq().len() == s0.channels@.len(),
                         forall|c: String| s0.channels@.contains_key(c) ==> exists|i: int| 0 <= i < it2.seq().len() && *(#[trigger] it2.seq()[i]).0 == c,
-                        it2.seq().no_duplicates(),
                         conn_state.stream.log() == sl0.push(start) + list_lines(server_name, k0, s0, names), // @prop C12,C09
-                        // the names listed so far: exactly the non-secret channels among those walked, each once
-                        forall|i: int| 0 <= i < names.len() ==> walked(it2.seq(), it2.index@ as int, #[trigger] names[i]), // @prop C12
+                        // every name listed so far is a channel the asker may know of; every public channel walked so far is listed
+                        forall|i: int| 0 <= i < names.len() ==> s0.channels@.contains_key(string_of(#[trigger] names[i])) && chan_visible_to(s0.channels@[string_of(names[i])], my_nick(k0)), // @prop C12
                         forall|j: int| 0 <= j < it2.index@ && listable(s0, *(#[trigger] it2.seq()[j]).0) ==> names.contains((*it2.seq()[j].0)@), // @prop C12
-                        names.no_duplicates(), // @prop C12
-                        it2.index@ == it2.seq().len() ==> (forall|c: String| listable(s0, c) <==> names.contains(c@)), // @prop C12
-                        forall|i: int| 0 <= i < names.len() ==> listable(s0, string_of(#[trigger] names[i])), // @prop C12
+                        it2.index@ == it2.seq().len() ==> (forall|c: String| listable(s0, c) ==> names.contains(#[trigger] c@)), // @prop C12
 //@after ~for \(chname, ch\) in state\.channels\.iter\(\)
                     broadcast use group_hash_axioms, bridge, string_eq;
                     let ghost log_a = conn_state.stream.log();
@@ -106,27 +98,15 @@ impl MainState {
                     }
 //@endloop ~for \(chname, ch\) in state\.channels\.iter\(\)
                     proof {
-                        if listable(s0, *chname) {
+                        // whatever the guard was: a line was appended or not, and it is the line of this channel
+                        assert(conn_state.stream.log() == log_a || conn_state.stream.log() == log_a.push(list_item(server_name, k0, s0, chname@))); // @prop C12,C09
+                        if conn_state.stream.log() != log_a {
                             names = names0.push(chname@);
-                            assert(conn_state.stream.log() == log_a.push(list_item(server_name, k0, s0, chname@))); // @prop C12,C09
+                            assert(chan_visible_to(s0.channels@[*chname], my_nick(k0))); // @prop C12
                             assert(list_lines(server_name, k0, s0, names) =~= list_lines(server_name, k0, s0, names0).push(list_item(server_name, k0, s0, chname@)));
+                            assert(names[names0.len() as int] == chname@);
                         } else {
-                            assert(conn_state.stream.log() == log_a); // @prop C12
-                        }
-                    }
-                    assert(names.no_duplicates()) by { // @prop C12
-                        if listable(s0, *chname) {
-                            assert forall|i: int| 0 <= i < names0.len() implies names0[i] != chname@ by {
-                                assert(walked(it2.seq(), it2.index@ as int, names0[i]));
-                                let j = choose|j: int| 0 <= j < it2.index@ && (*(#[trigger] it2.seq()[j]).0)@ == names0[i];
-                                // two positions of the walk with the same key would be the same pair
-                                if names0[i] == chname@ {
-                                    assert(string_of((*it2.seq()[j].0)@) == *it2.seq()[j].0);
-                                    assert(*it2.seq()[j].0 == *chname);
-                                    assert(*it2.seq()[j].1 == *ch);
-                                    assert(it2.seq()[j] == it2.seq()[it2.index@ as int]);
-                                }
-                            }
+                            assert(!listable(s0, *chname)); // @prop C12
                         }
                     }
                     assert(forall|j: int| 0 <= j < it2.index@ + 1 && listable(s0, *(#[trigger] it2.seq()[j]).0) ==> names.contains((*it2.seq()[j].0)@)) by { // @prop C12
@@ -135,33 +115,20 @@ impl MainState {
                             else { assert(names[names0.len() as int] == chname@); }
                         }
                     }
-                    assert(forall|i: int| 0 <= i < names.len() ==> walked(it2.seq(), it2.index@ + 1, #[trigger] names[i])) by { // @prop C12
-                        assert forall|i: int| 0 <= i < names.len() implies walked(it2.seq(), it2.index@ + 1, #[trigger] names[i]) by {
-                            if i < names0.len() {
-                                assert(walked(it2.seq(), it2.index@ as int, names0[i]));
-                                let j = choose|j: int| 0 <= j < it2.index@ && (*(#[trigger] it2.seq()[j]).0)@ == names0[i];
-                                assert((*it2.seq()[j].0)@ == names[i]);
-                            } else { assert((*it2.seq()[it2.index@ as int].0)@ == names[i]); }
-                        }
-                    }
-                    assert(it2.index@ + 1 == it2.seq().len() ==> (forall|c: String| listable(s0, c) <==> names.contains(c@))) by { // @prop C12
+                    assert(it2.index@ + 1 == it2.seq().len() ==> (forall|c: String| listable(s0, c) ==> names.contains(#[trigger] c@))) by { // @prop C12
                         if it2.index@ + 1 == it2.seq().len() {
-                            assert forall|c: String| listable(s0, c) <==> names.contains(c@) by {
-                                if listable(s0, c) {
-                                    let i = choose|i: int| 0 <= i < it2.seq().len() && *(#[trigger] it2.seq()[i]).0 == c;
-                                    assert(names.contains((*it2.seq()[i].0)@));
-                                }
-                                if names.contains(c@) {
-                                    let t = choose|t: int| 0 <= t < names.len() && names[t] == c@;
-                                    assert(listable(s0, string_of(names[t])));
-                                    assert(string_of(c@) == c);
-                                }
+                            assert forall|c: String| listable(s0, c) implies names.contains(#[trigger] c@) by {
+                                let i = choose|i: int| 0 <= i < it2.seq().len() && *(#[trigger] it2.seq()[i]).0 == c;
+                                assert(names.contains((*it2.seq()[i].0)@));
                             }
                         }
                     }
 //@close
         proof {
             if server is None {
+                assert forall|c: String| listable(s0, c) && (cs.len() == 0 || listed_ch(cs, c)) implies names.contains(#[trigger] c@) by {
+                    if cs.len() > 0 { let j = choose|j: int| 0 <= j < cs.len() && sk(#[trigger] cs[j]) == c; assert(names.contains(cs[j]@)); }
+                }
                 assert(list_post(server_name, k0, s0, cs, sl0, conn_state.stream.log())); // @prop C12,C09
             }
         }
